@@ -365,7 +365,7 @@ pub fn explore<M: Model>(m: &M, tag: &str, caps: &Caps) -> Explored<M::Op> {
 	// be the one the reopened run reached.
 	let si_findings: Vec<PathFinding<M::Op>> = {
 		let si_start = Instant::now();
-		let si_wall = if tier() == Tier::Thorough { Duration::from_secs(600) } else { Duration::from_secs(25) };
+		let si_wall = if tier() == Tier::Thorough { Duration::from_secs(240) } else { Duration::from_secs(25) };
 		let cut = std::sync::atomic::AtomicBool::new(false);
 		let done = std::sync::atomic::AtomicUsize::new(0);
 		let outs = par_map(&si_cases, nworkers, |i, (path, h)| {
